@@ -14,6 +14,7 @@ import Rva.Proofs.C07b
 import Rva.Proofs.C07
 import Rva.Proofs.C06b
 import Rva.Proofs.C13b
+import Rva.Proofs.C07c
 namespace Rva
 
 def PState.app (s : PState) (b : List PItem) : PState := { s with items := s.items ++ b }
@@ -407,23 +408,23 @@ inductive SepAll : List PItem → Prop where
   | step (a : List PItem) : a ≠ [] → StepOK a → SepAll (nextTop a) → SepAll a
 
 /-- `include_step_commutes` with the remainder named: it is `nextTop a` -/
-theorem include_step_commutes' (a rest : List PItem) (below : List (List PItem)) (r : Reader)
+theorem include_step_commutes' (a : List PItem) (r : Reader)
     (nodes : List Node) (errs : List ParseErr) (hok : StepOK a) :
-    ∃ nodes' errs', ∀ fuel,
+    ∃ nodes' errs', ∀ (rest : List PItem) (below : List (List PItem)) (fuel : Nat),
       parseLoop (fuel + 1) (a :: rest :: below) r nodes errs =
         parseLoop fuel (nextTop a :: rest :: below) r nodes' errs' ∧
       parseLoop (fuel + 1) ((a ++ rest) :: below) r nodes errs =
         parseLoop fuel ((nextTop a ++ rest) :: below) r nodes' errs' := by
   obtain ⟨hp, hne, hinc, hrec⟩ := hok
-  have hloc := parseStep_local a rest hp hne
+  have hloc := fun rest => parseStep_local a rest hp hne
   cases hres : (parseStep a).1 with
   | ok x =>
     have hx := hinc x hres
     have hstep : parseStep a = (.ok x, (parseStep a).2) := Prod.ext hres rfl
     have hnt : nextTop a = (parseStep a).2 := by unfold nextTop; rw [hstep]
-    refine ⟨x :: nodes, errs, fun fuel => ⟨?_, ?_⟩⟩
+    refine ⟨x :: nodes, errs, fun rest below fuel => ⟨?_, ?_⟩⟩
     · rw [parseLoop, hstep, hnt]; simp only [hx]
-    · rw [parseLoop, hloc, hres, hnt]; simp only [hx]
+    · rw [parseLoop, hloc rest, hres, hnt]; simp only [hx]
   | error e =>
     have hstep : parseStep a = (.error e, (parseStep a).2) := Prod.ext hres rfl
     have hr := hrec e hres
@@ -434,97 +435,98 @@ theorem include_step_commutes' (a rest : List PItem) (below : List (List PItem))
     | expected ex got =>
       by_cases hg : (got.kind == TokKind.newline) = true
       · have hnt' : nextTop a = (parseStep a).2 := by rw [hnt]; simp [LexErr.recovers, hg]
-        refine ⟨nodes, .expected ex got :: errs, fun fuel => ⟨?_, ?_⟩⟩
+        refine ⟨nodes, .expected ex got :: errs, fun rest below fuel => ⟨?_, ?_⟩⟩
         · rw [parseLoop, hstep, hnt']; simp only [hg, if_true]
-        · rw [parseLoop, hloc, hres, hnt']; simp only [hg, if_true]
+        · rw [parseLoop, hloc rest, hres, hnt']; simp only [hg, if_true]
       · have hg' : (got.kind == TokKind.newline) = false := by simpa using hg
         have hnl := hr (by simp [LexErr.recovers, hg'])
         have hnt' : nextTop a = recover (parseStep a).2 := by rw [hnt]; simp [LexErr.recovers, hg']
-        refine ⟨nodes, .expected ex got :: errs, fun fuel => ⟨?_, ?_⟩⟩
+        refine ⟨nodes, .expected ex got :: errs, fun rest below fuel => ⟨?_, ?_⟩⟩
         · rw [parseLoop, hstep, hnt']; simp only [hg', Bool.false_eq_true, if_false]
-        · rw [parseLoop, hloc, hres, hnt']; simp only [hg', Bool.false_eq_true, if_false, recover_append _ _ hnl]
+        · rw [parseLoop, hloc rest, hres, hnt']; simp only [hg', Bool.false_eq_true, if_false, recover_append _ _ hnl]
     | isNewline t =>
       have hnt' : nextTop a = (parseStep a).2 := by rw [hnt]; simp [LexErr.recovers]
-      refine ⟨nodes, errs, fun fuel => ⟨?_, ?_⟩⟩
+      refine ⟨nodes, errs, fun rest below fuel => ⟨?_, ?_⟩⟩
       · rw [parseLoop, hstep, hnt']
-      · rw [parseLoop, hloc, hres, hnt']
+      · rw [parseLoop, hloc rest, hres, hnt']
     | ignoredWithoutWarning =>
       have hnt' : nextTop a = (parseStep a).2 := by rw [hnt]; simp [LexErr.recovers]
-      refine ⟨nodes, errs, fun fuel => ⟨?_, ?_⟩⟩
+      refine ⟨nodes, errs, fun rest below fuel => ⟨?_, ?_⟩⟩
       · rw [parseLoop, hstep, hnt']
-      · rw [parseLoop, hloc, hres, hnt']
+      · rw [parseLoop, hloc rest, hres, hnt']
     | needTwoNodes n1 n2 =>
       have hnt' : nextTop a = (parseStep a).2 := by rw [hnt]; simp [LexErr.recovers]
-      refine ⟨n2 :: n1 :: nodes, errs, fun fuel => ⟨?_, ?_⟩⟩
+      refine ⟨n2 :: n1 :: nodes, errs, fun rest below fuel => ⟨?_, ?_⟩⟩
       · rw [parseLoop, hstep, hnt']
-      · rw [parseLoop, hloc, hres, hnt']
+      · rw [parseLoop, hloc rest, hres, hnt']
     | unexpectedToken t =>
       have hnl := hr rfl
       have hnt' : nextTop a = recover (parseStep a).2 := by rw [hnt]; simp [LexErr.recovers]
-      refine ⟨nodes, .unexpectedToken t :: errs, fun fuel => ⟨?_, ?_⟩⟩
+      refine ⟨nodes, .unexpectedToken t :: errs, fun rest below fuel => ⟨?_, ?_⟩⟩
       · rw [parseLoop, hstep, hnt']
-      · rw [parseLoop, hloc, hres, hnt']; simp only [recover_append _ _ hnl]
+      · rw [parseLoop, hloc rest, hres, hnt']; simp only [recover_append _ _ hnl]
     | unexpectedError t =>
       have hnl := hr rfl
       have hnt' : nextTop a = recover (parseStep a).2 := by rw [hnt]; simp [LexErr.recovers]
-      refine ⟨nodes, .unexpectedError t :: errs, fun fuel => ⟨?_, ?_⟩⟩
+      refine ⟨nodes, .unexpectedError t :: errs, fun rest below fuel => ⟨?_, ?_⟩⟩
       · rw [parseLoop, hstep, hnt']
-      · rw [parseLoop, hloc, hres, hnt']; simp only [recover_append _ _ hnl]
+      · rw [parseLoop, hloc rest, hres, hnt']; simp only [recover_append _ _ hnl]
     | unknownDirective t =>
       have hnl := hr rfl
       have hnt' : nextTop a = recover (parseStep a).2 := by rw [hnt]; simp [LexErr.recovers]
-      refine ⟨nodes, .unknownDirective t :: errs, fun fuel => ⟨?_, ?_⟩⟩
+      refine ⟨nodes, .unknownDirective t :: errs, fun rest below fuel => ⟨?_, ?_⟩⟩
       · rw [parseLoop, hstep, hnt']
-      · rw [parseLoop, hloc, hres, hnt']; simp only [recover_append _ _ hnl]
+      · rw [parseLoop, hloc rest, hres, hnt']; simp only [recover_append _ _ hnl]
     | ignoredWithWarning t =>
       have hnl := hr rfl
       have hnt' : nextTop a = recover (parseStep a).2 := by rw [hnt]; simp [LexErr.recovers]
-      refine ⟨nodes, .unsupported t :: errs, fun fuel => ⟨?_, ?_⟩⟩
+      refine ⟨nodes, .unsupported t :: errs, fun rest below fuel => ⟨?_, ?_⟩⟩
       · rw [parseLoop, hstep, hnt']
-      · rw [parseLoop, hloc, hres, hnt']; simp only [recover_append _ _ hnl]
+      · rw [parseLoop, hloc rest, hres, hnt']; simp only [recover_append _ _ hnl]
     | unsupportedDirective t =>
       have hnl := hr rfl
       have hnt' : nextTop a = recover (parseStep a).2 := by rw [hnt]; simp [LexErr.recovers]
-      refine ⟨nodes, .unsupported t :: errs, fun fuel => ⟨?_, ?_⟩⟩
+      refine ⟨nodes, .unsupported t :: errs, fun rest below fuel => ⟨?_, ?_⟩⟩
       · rw [parseLoop, hstep, hnt']
-      · rw [parseLoop, hloc, hres, hnt']; simp only [recover_append _ _ hnl]
+      · rw [parseLoop, hloc rest, hres, hnt']; simp only [recover_append _ _ hnl]
     | invalidString t k p =>
       have hnl := hr rfl
       have hnt' : nextTop a = recover (parseStep a).2 := by rw [hnt]; simp [LexErr.recovers]
-      refine ⟨nodes, .invalidString t k p :: errs, fun fuel => ⟨?_, ?_⟩⟩
+      refine ⟨nodes, .invalidString t k p :: errs, fun rest below fuel => ⟨?_, ?_⟩⟩
       · rw [parseLoop, hstep, hnt']
-      · rw [parseLoop, hloc, hres, hnt']; simp only [recover_append _ _ hnl]
+      · rw [parseLoop, hloc rest, hres, hnt']; simp only [recover_append _ _ hnl]
 
 /-- **C15 (`include_is_paste`).** Reading an included file whose statements the frame rule covers
     (`SepAll a`: no data directive or macro, no nested `.include`, no statement cut off by the end of
     the file) and then going on in the including file reaches - one step later, for the return to the
     includer - exactly the configuration that reading the pasted text `a ++ rest` reaches: the same
-    nodes and parse errors collected, the same reader, the includer's remaining items `rest` on top.
-    From there on the two runs are the same run. -/
+    nodes and parse errors collected (they depend on the included items only, not on what follows),
+    the same reader, the includer's remaining items `rest` on top. From there on the two runs are the
+    same run. -/
 theorem include_is_paste (a : List PItem) (hs : SepAll a) :
-    ∀ (rest : List PItem) (below : List (List PItem)) (r : Reader) (nodes : List Node) (errs : List ParseErr),
-    ∃ k, ∀ fuel, ∃ nodes' errs',
+    ∀ (r : Reader) (nodes : List Node) (errs : List ParseErr),
+    ∃ k nodes' errs', ∀ (rest : List PItem) (below : List (List PItem)) (fuel : Nat),
       parseLoop (fuel + k + 1) (a :: rest :: below) r nodes errs =
         parseLoop fuel (rest :: below) r nodes' errs' ∧
       parseLoop (fuel + k) ((a ++ rest) :: below) r nodes errs =
         parseLoop fuel (rest :: below) r nodes' errs' := by
   induction hs with
   | nil =>
-    intro rest below r nodes errs
-    refine ⟨0, fun fuel => ⟨nodes, errs, ?_, ?_⟩⟩
+    intro r nodes errs
+    refine ⟨0, nodes, errs, fun rest below fuel => ⟨?_, ?_⟩⟩
     · exact include_end_pops fuel rest below r nodes errs
     · simp
   | step a hne hok _ ih =>
-    intro rest below r nodes errs
-    obtain ⟨n1, e1, hstep⟩ := include_step_commutes' a rest below r nodes errs hok
-    obtain ⟨k, hk⟩ := ih rest below r n1 e1
-    refine ⟨k + 1, fun fuel => ?_⟩
-    obtain ⟨n', e', h1, h2⟩ := hk fuel
-    refine ⟨n', e', ?_, ?_⟩
-    · have := (hstep (fuel + k + 1)).1
+    intro r nodes errs
+    obtain ⟨n1, e1, hstep⟩ := include_step_commutes' a r nodes errs hok
+    obtain ⟨k, n', e', hk⟩ := ih r n1 e1
+    refine ⟨k + 1, n', e', fun rest below fuel => ?_⟩
+    obtain ⟨h1, h2⟩ := hk rest below fuel
+    refine ⟨?_, ?_⟩
+    · have := (hstep rest below (fuel + k + 1)).1
       rw [show fuel + (k + 1) + 1 = fuel + k + 1 + 1 by omega, this]
       exact h1
-    · have := (hstep (fuel + k)).2
+    · have := (hstep rest below (fuel + k)).2
       rw [show fuel + (k + 1) = fuel + k + 1 by omega, this]
       exact h2
 
@@ -557,5 +559,24 @@ theorem sepAll_label_line (tl tn : FTok) (l : String) (hl : tl.kind = .label)
     · intro x hx; rw [h2] at hx; cases hx
     · intro e he hr; rw [h2] at he; simp only [Except.error.injEq] at he; subst he; simp [LexErr.recovers] at hr
     · rw [n2]; exact SepAll.nil
+
+end Rva
+
+namespace Rva
+
+/-- **C07 (`later_lines_unaffected`).** Lines whose statements the frame rule covers (`SepAll bad` -
+    for instance a malformed line that ends at its newline) contribute their own nodes and errors
+    and nothing else: whatever stands behind them (`post`) is parsed exactly as it is parsed
+    without them - `O` below is the result of parsing `post` alone, from the same reader - and what
+    the lines themselves contribute (`nodes'`, `errs'`) does not depend on `post`. -/
+theorem later_lines_unaffected (bad : List PItem) (hs : SepAll bad) (r : Reader) (nodes : List Node)
+    (errs : List ParseErr) :
+    ∃ k nodes' errs', ∀ (post : List PItem) (below : List (List PItem)) (fuel : Nat),
+      parseLoop (fuel + k) ((bad ++ post) :: below) r nodes errs =
+        ParseOut.shift nodes' errs' (parseLoop fuel (post :: below) r [] []) := by
+  obtain ⟨k, n', e', h⟩ := include_is_paste bad hs r nodes errs
+  refine ⟨k, n', e', fun post below fuel => ?_⟩
+  rw [(h post below fuel).2]
+  exact parseLoop_acc fuel _ r n' e'
 
 end Rva
